@@ -17,7 +17,9 @@ import (
 	"github.com/NibiruChain/nibiru/v2/eth"
 	"github.com/NibiruChain/nibiru/v2/x/common/testutil/testapp"
 	"github.com/NibiruChain/nibiru/v2/x/evm"
+	"github.com/NibiruChain/nibiru/v2/x/evm/embeds"
 	"github.com/NibiruChain/nibiru/v2/x/evm/evmtest"
+	"github.com/NibiruChain/nibiru/v2/x/evm/precompile"
 
 	"verif/harness/internal/easm"
 	"verif/harness/internal/hx"
@@ -116,6 +118,33 @@ func runLogIndex(r *hx.R, n int, w *hx.W, _ []string) error {
 		return fmt.Errorf("create funtoken: %w", err)
 	}
 	_ = testapp.FundAccount(deps.App.BankKeeper, deps.Ctx, deps.Sender.NibiruAddr, sdk.NewCoins(sdk.NewInt64Coin("ulog", 1_000_000_000)))
+	// an ERC20-born FunToken: TestERC20 deployed by the sender, mapped, and some of it converted to its bank coin
+	erc20Nonce := k.GetAccNonce(deps.Ctx, deps.Sender.EthAddr)
+	erc20Args, _ := embeds.SmartContract_TestERC20.ABI.Pack("")
+	em, err := signedEthTx(&deps, deps.Sender, erc20Nonce, nil, big.NewInt(0), 3_000_000, gasPrice, append(append([]byte{}, embeds.SmartContract_TestERC20.Bytecode...), erc20Args...))
+	if err != nil {
+		return err
+	}
+	if resp, err := k.EthereumTx(sdk.WrapSDKContext(deps.Ctx), em); err != nil || resp.VmError != "" {
+		return fmt.Errorf("deploy erc20: %v %v", err, resp)
+	}
+	erc20Born := crypto.CreateAddress(deps.Sender.EthAddr, erc20Nonce)
+	if _, err := k.CreateFunToken(sdk.WrapSDKContext(deps.Ctx), &evm.MsgCreateFunToken{FromErc20: &eth.EIP55Addr{Address: erc20Born}, Sender: deps.Sender.NibiruAddr.String()}); err != nil {
+		return fmt.Errorf("create funtoken from erc20: %w", err)
+	}
+	erc20Denom := "erc20/" + erc20Born.Hex()
+	{
+		in, _ := embeds.SmartContract_FunToken.ABI.Pack("sendToBank", erc20Born, big.NewInt(1_000_000), deps.Sender.NibiruAddr.String())
+		pcAddr := precompile.PrecompileAddr_FunToken
+		sm, err := signedEthTx(&deps, deps.Sender, k.GetAccNonce(deps.Ctx, deps.Sender.EthAddr), &pcAddr, big.NewInt(0), 3_000_000, gasPrice, in)
+		if err != nil {
+			return err
+		}
+		if resp, err := k.EthereumTx(sdk.WrapSDKContext(deps.Ctx), sm); err != nil || resp.VmError != "" {
+			return fmt.Errorf("initial sendToBank: %v %v", err, resp)
+		}
+	}
+	nonce = k.GetAccNonce(deps.Ctx, deps.Sender.EthAddr)
 	base := deps.Ctx
 	seqDenom := 0
 	for c := 0; c < n; c++ {
@@ -141,7 +170,55 @@ func runLogIndex(r *hx.R, n int, w *hx.W, _ []string) error {
 			counters := func(cx sdk.Context) string {
 				return fmt.Sprintf("txIndex=%d logSize=%d", k.EvmState.BlockTxIndex.GetOr(cx, 0), k.EvmState.BlockLogSize.GetOr(cx, 0))
 			}
-			switch ch := r.Pick(10); {
+			switch ch := r.Pick(13); {
+			case ch == 10: // an Ethereum tx straight to the FunToken precompile: sendToBank of the ERC20-born token (ERC20 Transfer log + mirrored events)
+				in, _ := embeds.SmartContract_FunToken.ABI.Pack("sendToBank", erc20Born, big.NewInt(r.Range(1, 500)), deps.Sender.NibiruAddr.String())
+				pcAddr := precompile.PrecompileAddr_FunToken
+				msg, err := signedEthTx(&deps, deps.Sender, blockNonce, &pcAddr, big.NewInt(0), 3_000_000, gasPrice, in)
+				if err != nil {
+					return err
+				}
+				nl := 0
+				res := hx.Recover(func() string {
+					resp, err := k.EthereumTx(sdk.WrapSDKContext(tctx), msg)
+					got := "ok"
+					if err != nil {
+						got = "failed"
+					} else if resp.VmError != "" {
+						got = "reverted"
+					}
+					if got != "failed" {
+						commit()
+						blockNonce++
+						collect(tctx)
+					}
+					nl = len(logsOfEvents(tctx.EventManager().Events()))
+					return fmt.Sprintf("%s logs=%s %s", got, items(logsOfEvents(tctx.EventManager().Events())), counters(bctx))
+				})
+				w.Count("ethpc:" + strings.SplitN(res, " ", 2)[0])
+				w.Step(fmt.Sprintf("logidx eth %d %s", nl, strings.SplitN(res, " ", 2)[0]), res)
+			case ch >= 11: // ConvertCoinToEvm of the ERC20-born FunToken: an ERC20 transfer out of the module's escrow
+				amt := r.Range(1, 300)
+				if r.Chance(1, 8) {
+					amt = 1_000_000_000_000_000
+				}
+				nl := 0
+				res := hx.Recover(func() string {
+					_, err := k.ConvertCoinToEvm(sdk.WrapSDKContext(tctx), &evm.MsgConvertCoinToEvm{Sender: deps.Sender.NibiruAddr.String(),
+						BankCoin: sdk.NewInt64Coin(erc20Denom, amt), ToEthAddr: eth.EIP55Addr{Address: deps.Sender.EthAddr}})
+					got := "ok"
+					if err != nil {
+						got = "failed"
+					} else {
+						commit()
+						collect(tctx)
+						nl = len(logsOfEvents(tctx.EventManager().Events()))
+					}
+					return fmt.Sprintf("%s logs=%s %s", got, items(logsOfEvents(tctx.EventManager().Events())), counters(bctx))
+				})
+				k.Bank.StateDB = nil
+				w.Count("convertErc20:" + strings.SplitN(res, " ", 2)[0])
+				w.Step(fmt.Sprintf("logidx cosmos convertErc20Born %d %s", nl, strings.SplitN(res, " ", 2)[0]), res)
 			case ch < 6: // an Ethereum tx to the logger
 				nlogs := r.Pick(5)
 				mode := "ok"
